@@ -14,6 +14,7 @@ def analyse(ctx: CheckContext, p: Program):
     order.check_config_attrs(ctx, p, r, cone if ctx.tier == "quick" else cone)
     order.check_handler_table(ctx, p, r)
     order.check_division_guards(ctx, p, r, cone)
+    order.check_record_divisions(ctx, p, r, cone)
     order.check_subzone_loops(ctx, p, r)
     coldef.check_column_definitions(ctx, p, r)
 
